@@ -10,6 +10,7 @@ package hc10
 // scheduler; after quiescence the lists must equal the multimap implied by the completed updates.
 
 import (
+	"net/http"
 	"context"
 	"encoding/json"
 	"fmt"
@@ -444,6 +445,142 @@ type replay struct {
 	Hist    []Op   `json:"history"`
 	Threads [][]Op `json:"threads,omitempty"`
 	Choices []int  `json:"choices,omitempty"`
+	Fault   *fault `json:"fault,omitempty"`
+}
+
+// fault: the K-th read of a fallback referrers tag during the last operation of the history (or
+// during the listings that follow it, Op "list") is answered once with Status
+type fault struct {
+	Status int    `json:"status"`
+	K      int    `json:"k"`
+	Op     string `json:"op"` // last, list
+}
+
+// runFault: the history runs undisturbed up to its last operation. What reports success under the
+// fault is held to the statement (the reference is what is stored afterwards); what reports an error
+// is not judged here (a failed push may have stored its manifest without recording it).
+func runFault(t *testing.T, cfg Cfg, hist []Op, f fault, scratch string) (used bool, outcome, vk, vm string) {
+	dir, _ := os.MkdirTemp(scratch, "f")
+	defer os.RemoveAll(dir)
+	_, other := qsched.Bubble(t, func() {
+		w := newWorld(t, cfg, dir)
+		ctx := context.Background()
+		n := len(hist)
+		if f.Op == "list" {
+			n++
+		}
+		for _, o := range hist[:min(n-1, len(hist))] {
+			_ = w.do(ctx, o)
+		}
+		w.present = w.stored()
+		seen := 0
+		w.net.Decide = func(e *modelreg.Entry) *modelreg.Answer {
+			if used || e.Method != "GET" || !strings.Contains(e.Path, "/manifests/sha256-") {
+				return nil
+			}
+			seen++
+			if seen-1 != f.K {
+				return nil
+			}
+			used = true
+			return &modelreg.Answer{Status: f.Status, Header: http.Header{}, Body: []byte(`{"errors":[{"code":"INJECTED"}]}`), Note: fmt.Sprintf("fault-%d", f.Status)}
+		}
+		if f.Op == "list" {
+			for _, s := range subjects {
+				names, _, err := w.list(ctx, w.rc, s)
+				if err != nil {
+					outcome += "list-err "
+					continue
+				}
+				outcome += "list-ok "
+				want := expected(w.present, s, nil)
+				if strings.Join(names, ",") != strings.Join(want, ",") && vk == "" {
+					vk, vm = "fault/list-wrong-under-fault", fmt.Sprintf("ReferrerList(%s) reported success with %v while a read of the fallback tag was answered %d; live manifests naming it: %v", nameOf(s), names, f.Status, want)
+				}
+			}
+		} else {
+			o := hist[len(hist)-1]
+			err := w.do(ctx, o)
+			st := w.stored()
+			if err != nil {
+				outcome = "op-err"
+				w.net.Decide = nil
+				return
+			}
+			outcome = "op-ok"
+			if o.K == "put" && !st[o.A] {
+				vk, vm = "fault/put-not-stored", fmt.Sprintf("%s returned nil but the artifact is not stored", o)
+			} else if o.K == "del" && st[o.A] {
+				vk, vm = "fault/delete-not-removed", fmt.Sprintf("%s returned nil but the artifact is still stored", o)
+			}
+			w.present = st
+		}
+		w.net.Decide = nil
+		if vk != "" || !used {
+			return
+		}
+		// the fault is over: the same client (its cache) and the raw tag must agree with what is stored
+		if k, m := w.observe(ctx, w.rc, w.present, "same client, after the fault"); k != "" {
+			vk, vm = "fault/"+k, m
+			return
+		}
+		if k, m := w.rawAudit(w.present); k != "" {
+			vk, vm = "fault/"+k, m
+		}
+	})
+	if other != nil {
+		vk, vm = "panic", fmt.Sprint(other)
+	}
+	return
+}
+
+func faultBlock(t *testing.T, rec *ev.Rec, mine func() bool) {
+	ops := alphabet()
+	for _, cfg := range []Cfg{{Kind: "reg", Feat: "noapi"}, {Kind: "reg", Feat: "noapi", Cache: true}} {
+		var hists [][]Op
+		for _, a := range ops {
+			for _, b := range ops {
+				hists = append(hists, []Op{a, b})
+				for _, c := range ops {
+					if a.K == "put" {
+						hists = append(hists, []Op{a, b, c})
+					}
+				}
+			}
+		}
+		for _, h := range hists {
+			if !mine() {
+				continue
+			}
+			if rec.Expired() {
+				rec.NotExhaustive("budget reached in the fault block")
+				return
+			}
+			for _, st := range []int{403, 503} {
+				for _, fop := range []string{"last", "list"} {
+					for k := 0; k < 4; k++ {
+						f := fault{Status: st, K: k, Op: fop}
+						used, out, vk, vm := runFault(t, cfg, h, f, rec.Scratch)
+						if !used {
+							break
+						}
+						rec.Eval(1)
+						rec.Count("fault_block.executions", 1)
+						rec.Count("fault_block."+strings.Fields(out + " none")[0], 1)
+						rec.Distinct(fmt.Sprintf("fault %s#%s#%v#%s", cfg, histStr(h), f, out))
+						if vk != "" {
+							_, _, vk2, _ := runFault(t, cfg, h, f, rec.Scratch)
+							if vk2 != vk {
+								rec.HarnessError("fault block: %q of %s / %s not reproduced (%q)", vk, cfg, histStr(h), vk2)
+								continue
+							}
+							rec.Violation(fmt.Sprintf("%s %s feat=%s cache=%v status=%d during=%s", vk, cfg.Kind, cfg.Feat, cfg.Cache, st, fop), vm+"\nhistory: "+histStr(h)+fmt.Sprintf("\nfault: read %d of a fallback tag answered %d during %s", k, st, fop)+"\nconfig: "+cfg.String(), replay{Part: "fault", Cfg: cfg, Hist: h, Fault: &f})
+						}
+					}
+				}
+			}
+		}
+	}
 }
 
 func runHist(t *testing.T, cfg Cfg, hist []Op, scratch string, judgeAll bool) (canon string, vk, vm string) {
@@ -744,6 +881,7 @@ func TestVerifC10(t *testing.T) {
 	rec := ev.New()
 	defer rec.Flush(t)
 	rec.Rule("part 1: per configuration (registry with the referrers API unpaged / paged by 1 / without OCI-Subject acknowledgement, without the API (fallback tag), without API and tag delete, response cache on for three of them, OCI layout; six of these again with every artifact pushed to a tag of its own instead of by digest) breadth-first search to closure over histories of put / referrer-aware delete of six artifacts (two types, one referrer of a referrer, one with a non-existent subject, one index-typed, one config-typed), states deduplicated by raw store (artifacts + fallback tags); plus every sequence of length 3 (thorough 4) WITHOUT deduplication, because the client cache is hidden state. After every operation ReferrerList of every subject (plain, artifactType filter, annotation filter) is compared with the reference multimap and the raw fallback tag is audited. " +
+		"fault block (the statement has no faults; a reported success is still held to it): registries without the API, cache off/on, every history of two operations and every one of three that starts with a push, with the k-th read (k<4) of a fallback tag during the last operation, or during the listings after it, answered once with 403 or 503: an operation or listing that reports success must leave / return exactly the live referrers, also for the same client afterwards. " +
 		"part 2: 2-4 concurrent updates/lists of one subject through one client, every interleaving within a pre-emption bound at request arrivals (every mutex acquisition for layouts); after quiescence a fresh client and the same client must list exactly the multimap implied by the completed updates. distinct_nontrivial = distinct transitions / sequences / concurrent outcomes")
 	if rd := rec.ReplayData(); rd != nil {
 		var rp replay
@@ -759,6 +897,15 @@ func TestVerifC10(t *testing.T) {
 			rec.Eval(1)
 			if r.VKey != "" {
 				rec.Violation(r.VKey+" conc "+sc.Cfg.String()+" "+concKinds(sc), r.Violation, rp)
+			}
+			return
+		}
+		if rp.Part == "fault" && rp.Fault != nil {
+			used, out, vk, vm := runFault(t, rp.Cfg, rp.Hist, *rp.Fault, rec.Scratch)
+			fmt.Printf("replay %s history=%s fault=%+v used=%v outcome=%s\nverdict: %s %s\n", rp.Cfg, histStr(rp.Hist), *rp.Fault, used, out, vk, vm)
+			rec.Eval(1)
+			if vk != "" {
+				rec.Violation(fmt.Sprintf("%s %s feat=%s cache=%v status=%d during=%s", vk, rp.Cfg.Kind, rp.Cfg.Feat, rp.Cfg.Cache, rp.Fault.Status, rp.Fault.Op), vm, rp)
 			}
 			return
 		}
@@ -786,6 +933,7 @@ func TestVerifC10(t *testing.T) {
 	for _, cfg := range configs() {
 		allSeqs(t, rec, cfg, depth, mine)
 	}
+	faultBlock(t, rec, mine)
 	bound := 2
 	if rec.Thorough() {
 		bound = 3
